@@ -67,6 +67,7 @@ type fnInfo struct {
 }
 
 type Interp struct {
+	feedsIdx     map[ssa.Value]bool
 	prog         *ssa.Program
 	globals      map[*ssa.Global]*Value
 	fninfo       map[*ssa.Function]*fnInfo
@@ -591,10 +592,15 @@ func (i *Interp) ifConvert(fr *frame, cond *Term) bool {
 	if iT < 0 || iF < 0 || iT == iF {
 		return false
 	}
-	// all phis must be scalar (bool / integer)
+	// all phis must be scalar (bool / integer); an integer that goes on to index or slice something
+	// is better decided by forking (a symbolic position turns every later access into an ite table)
 	for _, ins := range D.Instrs[:np] {
 		phi := ins.(*ssa.Phi)
-		if _, ok := intInfo(phi.Type()); !ok && !isBool(phi.Type()) {
+		if _, ok := intInfo(phi.Type()); ok {
+			if i.feedsIndex(phi) {
+				return false
+			}
+		} else if !isBool(phi.Type()) {
 			return false
 		}
 	}
@@ -626,6 +632,66 @@ func (i *Interp) ifConvert(fr *frame, cond *Term) bool {
 	fr.phiOv = ov
 	fr.prevBlock, fr.block = predT, D
 	return true
+}
+
+// feedsIndex reports whether v (an integer SSA value) is used, through at most a few arithmetic/phi
+// steps, as an index, slice bound or make size.
+func (i *Interp) feedsIndex(v ssa.Value) bool {
+	if i.feedsIdx == nil {
+		i.feedsIdx = map[ssa.Value]bool{}
+	}
+	if r, ok := i.feedsIdx[v]; ok {
+		return r
+	}
+	seen := map[ssa.Value]bool{}
+	var walk func(x ssa.Value, depth int) bool
+	walk = func(x ssa.Value, depth int) bool {
+		if seen[x] {
+			return false
+		}
+		seen[x] = true
+		refs := x.Referrers()
+		if refs == nil {
+			return false
+		}
+		for _, r := range *refs {
+			switch r := r.(type) {
+			case *ssa.IndexAddr:
+				if r.Index == x {
+					return true
+				}
+			case *ssa.Index:
+				if r.Index == x {
+					return true
+				}
+			case *ssa.Slice:
+				if r.Low == x || r.High == x || r.Max == x {
+					return true
+				}
+			case *ssa.MakeSlice:
+				return true
+			case *ssa.BinOp:
+				switch r.Op {
+				case token.ADD, token.SUB:
+					if depth > 0 && walk(r, depth-1) {
+						return true
+					}
+				}
+			case *ssa.Phi:
+				if depth > 0 && walk(r, depth-1) {
+					return true
+				}
+			case *ssa.Convert:
+				if depth > 0 && walk(r, depth-1) {
+					return true
+				}
+			}
+		}
+		return false
+	}
+	r := walk(v, 4)
+	i.feedsIdx[v] = r
+	return r
 }
 
 func sameSSAValue(a, b ssa.Value) bool {
